@@ -6,5 +6,5 @@ From C56 Require Import C56Spec C56Model C56IMSpec C56IMModel C56IMProofs.
    under it (and the code) put in rank 1 *)
 Theorem C56_im_doc_sample_refuted :
   cubic_rank_matrix fcc_oct <> doc_sample_matrix /\ cubic_rank_matrix bcc_110 = doc_sample_matrix.
-Proof. destruct doc_sample_is_bcc_110 as [A B]. exact (conj B A). Qed.
+Proof. exact doc_sample_is_bcc_110. Qed.
 Print Assumptions C56_im_doc_sample_refuted.
